@@ -121,13 +121,13 @@ var registry = []propertySpec{
 		ID:    "C08",
 		Files: map[string][]string{"": {"zz_verif_lib.go", "zz_verif_c07.go", "zz_verif_c08.go"}},
 		Harnesses: []harnessSpec{
-			{Name: "VerifC08_Diff", Quick: tierSpec{Cases: 18, Split: 2}, Thorough: tierSpec{Cases: 18, Split: 2}, Sched: -1,
-				Bounds: "two independent trees: root with 0..2 children (plain with symbolic value in {A,B,C}, BIRT, DATE with symbolic year), first child optionally with a grandchild; then every sequence of two diff operations from {String, IsDeepEqual, Sort, Tag}"},
+			{Name: "VerifC08_Diff", Quick: tierSpec{Cases: 36, Split: 2}, Thorough: tierSpec{Cases: 36, Split: 2}, Sched: -1,
+				Bounds: "two independent trees: root with 0..2 children (plain with symbolic value in {A,B}, BIRT, RESI, DATE with symbolic year), the first child of either tree optionally with a grandchild; then every sequence of two diff operations from {String, IsDeepEqual, Sort, Tag}"},
 			{Name: "VerifC08_Equal", Quick: tierSpec{Cases: 6}, Thorough: tierSpec{Cases: 6}, Sched: -1,
-				Bounds: "a tree with 1..3 children (optional grandchild) and every reordering of a deep copy; plus one uniquely tagged extra leaf"},
+				Bounds: "a tree with 1..3 children (optional grandchild) and every reordering of a deep copy; plus one uniquely tagged extra leaf at depth 1 and at depth 2; IsDeepEqual against the harness's own recursion over the entries"},
 		},
 		Assumptions: []string{"values: one symbolic byte in A..C, years 1900..1901 (so that every Equals pattern among siblings occurs)"},
-		Outside:     "trees with more than 2 children per side in the independent case, sequences of more than two diff operations, node kinds other than plain/BIRT/DATE",
+		Outside:     "trees with more than 2 children per side in the independent case, sequences of more than two diff operations, node kinds other than plain/BIRT/RESI/DATE",
 	},
 	{
 		ID:    "C09",
@@ -243,6 +243,8 @@ var registry = []propertySpec{
 				Bounds: "husband born in 1800 and married in 1810/1816/1850/1900/1903 (by choice), days 1..28 symbolic, months Jan/Jun/Dec by choice; age at marriage at least 10 days away from 16 and 100 years"},
 			{Name: "VerifC20_Individual", Quick: tierSpec{Cases: 4}, Thorough: tierSpec{Cases: 4}, Sched: -1, Solver: "cvc5",
 				Bounds: "birth in 1800 and death in 1799/1800/1860/1900/1904 (by choice), days 1..28 symbolic, months by choice; extra unparsable dates / SEX lines by case"},
+			{Name: "VerifC20_EventOrder", Quick: tierSpec{Cases: 3}, Thorough: tierSpec{Cases: 3}, Sched: -1, Solver: "cvc5",
+				Bounds: "baptism, death and burial as exact days (day 1..28 symbolic, month Jan/Jun/Dec by choice, year 1850; death also 1851) in every relative order, with a valid, missing or unparsable birth"},
 			{Name: "VerifC20_Spouses", Quick: tierSpec{Cases: 16}, Thorough: tierSpec{Cases: 16}, Sched: -1,
 				Bounds: "all 4x4 combinations of husband / wife SEX values (M, F, missing, U)"},
 		},
@@ -297,8 +299,10 @@ var registry = []propertySpec{
 		ID:    "C11",
 		Files: map[string][]string{"": {"zz_verif_lib.go", "zz_verif_c11.go"}},
 		Harnesses: []harnessSpec{
-			{Name: "VerifC11_Compare", Quick: tierSpec{Cases: 48}, Thorough: tierSpec{Cases: 176}, Sched: 1, Invariant: []string{"matching"},
-				Bounds: "8 input scenarios (renumbered edited copy, shared pointers, duplicated unique id, identical twins, empty sides, crossed unique ids, a symbolic name byte) x Jobs in {0,1,2,3} with the default thresholds, Jobs in {0,1} with a symbolic MinimumWeightedSimilarity in [0,1] (thorough also Jobs 0..3 x 0/0, 1/1, 0/1, 1/0); every schedule of the goroutine pipeline with at most 1 pre-emption at channel, sync.Map and mutex operations"},
+			{Name: "VerifC11_Compare", Quick: tierSpec{Cases: 32}, Thorough: tierSpec{Cases: 160}, Sched: 1, Invariant: []string{"matching"},
+				Bounds: "8 input scenarios (renumbered edited copy, shared pointers, duplicated unique id, identical twins, empty sides, crossed unique ids, a symbolic name byte) x Jobs in {0,1,2,3} with the default thresholds (thorough also 0/0, 1/1, 0/1, 1/0); every schedule of the goroutine pipeline with at most 1 pre-emption at channel, sync.Map and mutex operations"},
+			{Name: "VerifC11_Threshold", Quick: tierSpec{Cases: 24}, Thorough: tierSpec{Cases: 24}, Sched: -1,
+				Bounds: "the 8 scenarios x Jobs 1, 2, 3 with a symbolic MinimumWeightedSimilarity in [0,1]; deterministic schedule (with the schedule explorer the symbolic scores times the schedules take 25 minutes per case)"},
 			{Name: "VerifC11_Races", Quick: tierSpec{Cases: 16}, Thorough: tierSpec{Cases: 16}, Sched: -2, Race: true,
 				Bounds: "the 8 scenarios with Jobs 2 and 3 under the happens-before monitor (vector clocks over go, channel, sync.Map, Mutex, WaitGroup, Once): unordered conflicting accesses of the interpreted code to struct fields, slice elements, globals and maps; each report is confirmed natively with the Go race detector"},
 		},
